@@ -82,6 +82,17 @@ PAIR_DATA = [b"", b"\xd2", b"\xd2\x2d"]
 QUAD_DATA = b"\x0f\xf0\x0f"
 S17_DATA = [b"", b"\x17", b"\x17\xe8\x17\xe8"]
 LENGTHS = list(range(18)) + [255, 256, 257, 1024]
+
+
+def sweep_lengths(tier):
+    """payload lengths that make the 16-bit length field take every low-octet value under high octets 0..4 and every
+    carry pattern (window -40..+8) around further multiples of 256 - a decoder that slices with the length field sees all of them"""
+    vals = set(range(18, 1101))
+    highs = list(range(5, 17)) + [31, 32, 63, 64, 127, 128, 254, 255] + ([] if tier == "quick" else list(range(17, 31)))
+    for h in highs:
+        vals.update(range(h * 256 - 40, h * 256 + 9))
+    return sorted(vals)
+
 STAMP = bytes([0x40, 1, 2, 3, 4, 5, 6]) + bytes(range(0x47, 0x47 + 32))
 FILL_HDR = bytes([0x20, 17, 2, 0, 0, 0, 0])
 REJECT_T = [0, 1, 2, 7]
@@ -137,6 +148,9 @@ def shards(tier):
             items.append({"kind": "data-bytes", "bg": 1, "tslen": tslen, "part": p, "parts": parts, "all_deep": deep})
     for tslen in TS_Q:
         items.append({"kind": "lengths", "bg": tslen % 2, "tslen": tslen})
+        if tslen in (0, 2, 7):
+            for part in range(2):
+                items.append({"kind": "len-sweep", "bg": tslen % 2, "tslen": tslen, "part": part, "parts": 2, "tier": tier})
     for axis in range(8):
         items.append({"kind": "len-x-edge", "axis": axis, "lens": [0, 7] if tier == "quick" else [0, 2, 7, 16]})
     for T in H_TS[tier]:
@@ -224,7 +238,7 @@ def keep_obs(o):
     return observe(o)
 
 
-KEEP_ROUTES = {"sweep": False, "ts-bytes": False, "data-bytes": False, "ts-lengths": True, "lengths": True, "tuples": True, "quad": True,
+KEEP_ROUTES = {"len-sweep": False, "sweep": False, "ts-bytes": False, "data-bytes": False, "ts-lengths": True, "lengths": True, "tuples": True, "quad": True,
                "srv17": False, "srv17-walk": False}  # shard kinds run with the independence oracle -> do their vectors use the alternative constructors
 
 
@@ -875,6 +889,16 @@ def run_shard(item):
                 dup = (L <= 2 and item["bg"] == 1 and T in (0, 7)) or (L == 0 and T == 0 and item["bg"] == 0)  # the latter is background 0 itself
                 check_tm(rec, background(item["bg"]), ("stamp", T), ("shaped", L, idx), nontrivial=not dup, routes=True, keeper=keeper)
                 rec.count("shaped_source_data")
+    elif kind == "len-sweep":
+        T = item["tslen"]
+        mx = RP.max_tm_source_data(T)
+        n = 0
+        for i, L in enumerate(sweep_lengths(item["tier"])):
+            if i % item["parts"] != item["part"] or L > mx:
+                continue
+            check_tm(rec, background(item["bg"]), ("stamp", T), ("shaped", L, (i + T) % len(D.shaped(L))), nontrivial=L not in LENGTHS, deep=(i % 8 == 0), keeper=keeper)
+            n += 1
+        rec.count("length_sweep_source_data", n)
     elif kind == "history":
         run_histories(rec, item)
     elif kind == "defaults":
